@@ -157,6 +157,17 @@ fn cases() -> Vec<Case> {
             }
         }
     }
+    // Family A3: recordings whose total duration is a whole number of milliseconds (the movie and
+    // track header durations are then exact: floor = ceil), every total from 1000 to 1100 ms and a
+    // ladder beyond; a conversion through floating-point seconds is one ms short for some of them
+    for ms in (1000u64..=1100).chain([2046, 4093, 8040, 16300, 32300, 64100, 128200, 1_000_001, 40_000_003]) {
+        // two frames: total = 2 x gap = 90 x ms ticks
+        let gap = 45 * ms;
+        let ts = [(0u64, 0u64), (gap, gap)];
+        let cfg = Cfg::basic(VCodec::H264, if ms % 3 == 0 { Some(ACodec::AacLc) } else { None }, ms % 2 == 0);
+        let ops = ts.iter().enumerate().map(|(i, &(p, d))| Op::WVD { pts: T(secs(p)), dts: T(secs(d)), data: if i == 0 { key(VCodec::H264, 1) } else { delta(VCodec::H264, 2) }, key: i == 0 }).collect();
+        v.push(Case::Prog { name: format!("whole-ms-total/{ms}ms"), cfg, ops });
+    }
     // Family A2: composition offset of the FIRST frame (and of a lone frame)
     for &c in &ctss {
         for two in [false, true] {
@@ -444,13 +455,13 @@ pub fn check(ctx: &Ctx) -> i32 {
             judge(c, (idx as u64, k as u64), t);
         }
     });
-    huge_part(ctx, &mut tally);
+    huge_part(ctx, &mut tally, "C16");
     finish(
         ctx,
         &tally,
         Meta {
             level: "exploration",
-            rule: format!("{n} boundary cases: video decode-time gaps g1 (x optional g2) over {{3000, 2^31-1, 2^31, 2^31+1, 2^32-2, 2^32-1, 2^32, 2^32+1}} ticks x composition offset of the second frame (and, separately, of the first / only frame) over {{0, +-(2^31-1), +-2^31, +-(2^31+1)}} from start {{0, 2^33}} (cumulative durations crossing 2^32 included); the same gap product for AAC and Opus audio; parameter sets of 65534..65537 bytes (SPS) x {{4, 65535, 65536}} (PPS) x VPS, each alone and followed by a second small set of every type; dimensions {{65535, 65536, 65537, 131072, u32::MAX}} x {{480, 65535, 65536}} x 4 codecs with and without frames; audio rates {{65535, 65536, 88200, 96000, u32::MAX}} x channels {{1, 6, 255, 256, 65535}}; absolute timestamps near 2^40, 2^52, 2^53 ticks and 1e15/1e300/f64::MAX s; fragmented DTS gaps {{2^32-1, 2^32, 2^33}} x composition offsets around 2^31; init segments with dimensions and parameter sets around 2^16. Oracle: the crossing call returns Err, or every numeric field the reader decodes equals the exact integer recomputed from the submitted history (no 32-bit escape). Thorough tier only: 32 files whose media data reaches 2^32 bytes (14 of them with three trailing Opus packets of 100 or 10 bytes, whose chunk offsets are the ones that cross) (mdat box size 2^32 - e for e over {{-64, -1, 0, 1, 16, 64, 600, 1200, 5000}} x both layouts, the last sample 32 bytes so that its chunk offset crosses 2^32 while the box size still fits), each in a child process: refused, or exact under the reader (which understands largesize and co64). Distinct by (results, output bytes)."),
+            rule: format!("{n} boundary cases: video decode-time gaps g1 (x optional g2) over {{3000, 2^31-1, 2^31, 2^31+1, 2^32-2, 2^32-1, 2^32, 2^32+1}} ticks x composition offset of the second frame (and, separately, of the first / only frame) over {{0, +-(2^31-1), +-2^31, +-(2^31+1)}} from start {{0, 2^33}} (cumulative durations crossing 2^32 included); two-frame recordings with every whole-millisecond total from 1000 to 1100 ms and a ladder up to 4e7 ms (header durations exact); the same gap product for AAC and Opus audio; parameter sets of 65534..65537 bytes (SPS) x {{4, 65535, 65536}} (PPS) x VPS, each alone and followed by a second small set of every type; dimensions {{65535, 65536, 65537, 131072, u32::MAX}} x {{480, 65535, 65536}} x 4 codecs with and without frames; audio rates {{65535, 65536, 88200, 96000, u32::MAX}} x channels {{1, 6, 255, 256, 65535}}; absolute timestamps near 2^40, 2^52, 2^53 ticks and 1e15/1e300/f64::MAX s; fragmented DTS gaps {{2^32-1, 2^32, 2^33}} x composition offsets around 2^31; init segments with dimensions and parameter sets around 2^16. Oracle: the crossing call returns Err, or every numeric field the reader decodes equals the exact integer recomputed from the submitted history (no 32-bit escape). Thorough tier only: 32 files whose media data reaches 2^32 bytes (14 of them with three trailing Opus packets of 100 or 10 bytes, whose chunk offsets are the ones that cross) (mdat box size 2^32 - e for e over {{-64, -1, 0, 1, 16, 64, 600, 1200, 5000}} x both layouts, the last sample 32 bytes so that its chunk offset crosses 2^32 while the box size still fits), each in a child process: refused, or exact under the reader (which understands largesize and co64). Distinct by (results, output bytes)."),
             bound: "three inputs (below / at / above) per narrowing site, pairwise with neighbouring sites".into(),
             exhaustive: true,
             assumptions: vec!["descriptor lengths near 2^8 are unreachable from inputs of feasible size and are not claimed; box sizes and chunk offsets near 2^32 are exercised in the thorough tier only (10 GiB per case)".into(), "mvhd/tkhd durations may match any track and any rounding direction; only wrapped/clipped values are violations".into()],
@@ -609,7 +620,7 @@ pub fn child_huge(e: i64, fast: bool, audio_mode: u8) -> i32 {
     0
 }
 
-fn huge_part(ctx: &Ctx, t: &mut Tally) {
+pub fn huge_part(ctx: &Ctx, t: &mut Tally, prop: &str) {
     if !ctx.thorough {
         return;
     }
@@ -622,6 +633,9 @@ fn huge_part(ctx: &Ctx, t: &mut Tally) {
     let exe = std::env::current_exe().expect("exe");
     let mut cases = vec![];
     for e in [-64i64, -1, 0, 1, 16, 64, 600, 1200, 5000] {
+        if prop != "C16" && ![1i64, 64, 1200].contains(&e) {
+            continue;
+        }
         for fast in [false, true] {
             cases.push((e, fast, 0u8));
             if [1i64, 64, 600, 1200].contains(&e) {
@@ -663,7 +677,7 @@ fn huge_part(ctx: &Ctx, t: &mut Tally) {
                 }
                 (Some(1), _) | (Some(3), _) => {
                     let sig = line.split(':').next().unwrap_or("BAD").replace("BAD ", "").replace(' ', "-");
-                    t.violation(&format!("C16/huge/{sig}"), order, || format!("media data of 2^32 - 8 - ({e}) bytes, fast_start {fast}, trailing audio {ta}: {line}"), case);
+                    t.violation(&format!("{prop}/huge/{sig}"), order, || format!("media data of 2^32 - 8 - ({e}) bytes, fast_start {fast}, trailing audio {ta}: {line}"), case);
                 }
                 _ => t.count("huge_file_children_crashed (machinery, e.g. out of memory)", 1),
             }
